@@ -187,6 +187,13 @@ theorem c20_live_removes_only_own (e : Env) (fs : Ents) (tmp : String) (filled :
     · simp
     · rename_i heq; rw [heq] at h3; simp at h3
 
+/-- The whole record run (local or --host): a foreign DIR is untouched and the
+    run fails, whatever the run would have written and whatever fails. -/
+theorem c20_record_run_foreign_untouched (host : Bool) (e : Env) (fs : Ents) (d : String) (filled : Ents)
+    (h : Foreign fs d) : recordRun host e fs d filled = (fs, false) := by
+  obtain ⟨h1, h2⟩ := c20_foreign_untouched e fs d (d ++ ".old") h
+  simp [recordRun, h1, h2]
+
 /-! ### The finding (F1) as a theorem about the pre-fix code, and non-vacuity -/
 
 /-- a foreign directory holding one user file -/
